@@ -374,6 +374,9 @@ func genC13(rt *rapid.T) C13Case {
 		p.Threads = append(p.Threads, ops)
 	}
 	p.Reps = 20
+	if readEnv().tier == "thorough" {
+		p.Reps = 50
+	}
 	return C13Case{Program: p}
 }
 
